@@ -246,7 +246,7 @@ Proof. intros. apply pretty_scope_is_event_scope. assumption. Qed.
 Print Assumptions C13_pretty_walks_the_event_scope.
 
 Theorem C13_F131_refuted :
-  let cur := [Span (str "req") [[(str "id", str "7")]] (str "app")] in
+  let cur := [Span (str "req") [[(str "id", str "7")]] (str "app") false] in
   pretty_scope true true [] cur = cur
   /\ format_event_pretty (Opts false true false false false false false) (Thr [] [])
        (Em (EMeta 3 (str "app") (str "event e") None None false) (pretty_scope true true [] cur) (FOk (str "message") (str "root event") FNil))
@@ -365,3 +365,28 @@ Theorem C13_sink_panic_would_leak_when_unrepaired :
   /\ ~ NoAbortedFormat unw2 true sink_panic_history.
 Proof. exact sink_panic_leaks_when_unrepaired. Qed.
 Print Assumptions C13_sink_panic_would_leak_when_unrepaired.
+
+(** ---- F132 (known, not repaired): a [Span::record] whose value's Debug impl panics (caught by the caller) poisons the
+    span's extensions lock (std locks); every later event with that span in scope reaches the layer and is NOT written.
+    The headline for the record of an event therefore carries the hypothesis "no record call unwound on a span of the
+    event's scope" exactly while the tree's locks poison (flag read from the source: on_record runs the value's Debug under
+    the extensions write guard, registry/sharded.rs unwraps the lock result). *)
+Theorem C13_event_record_is_written : forall f o th m sc fl fs,
+  (Gen_fmtbuf.record_unwind_poisons = true -> scope_poisoned sc = false) -> ok_fields fl = Some fs ->
+  records true (gev_of (guarded Gen_fmtbuf.record_unwind_poisons (format_event f o th)) (Em m sc fl))
+  = flat_map (records true) (gnested_of (guarded Gen_fmtbuf.record_unwind_poisons (format_event f o th)) fl)
+    ++ [(m, concat (map (render_tok f) (tokens_spec f o th m sc fs)))].
+Proof. intros. apply event_record_is_written; assumption. Qed.
+Print Assumptions C13_event_record_is_written.
+
+Theorem C13_F132_refuted :
+  let sp := Span (str "sp") [[(str "a", str "1")]] (str "app") true in
+  let m := EMeta 3 (str "app") (str "event e") None None false in
+  let o := Opts false true false false true false false in
+  let em := Em m [sp] (FOk (str "message") (str "inside") FNil) in
+  ok_fields (FOk (str "message") (str "inside") FNil) = Some [(str "message", str "inside")]
+  /\ records true (gev_of (guarded true (format_event Full o (Thr [] [])) ) em) = []
+  /\ records true (gev_of (guarded false (format_event Full o (Thr [] []))) em)
+     = [(m, str " INFO sp{a=1}: app: inside" ++ [10])].
+Proof. exact F132_witness. Qed.
+Print Assumptions C13_F132_refuted.
